@@ -14,7 +14,12 @@ def main():
         cond = rec["condition"]
         if ":" in cond and cond.split(":")[0].endswith(".py"):
             mod, func = cond.split(":")
-            rep = core.run_replay(os.path.join(core.ROOT, "vlib", "harness", mod), func, rec["counterexample"])
+            path = os.path.join(core.ROOT, "vlib", "harness", mod)
+            if not os.path.exists(path):
+                # generated (specialised) harness: regenerate it through the property's plan
+                importlib.import_module("vlib.props." + rec["property"].lower()).plan("quick")
+                path = os.path.join(core.ROOT, ".work", mod)
+            rep = core.run_replay(path, func, rec["counterexample"])
         else:
             rep = rec["replay"]
             print("E2 counterexamples are replayed natively by the obligation itself; recorded replay:")
@@ -25,6 +30,8 @@ def main():
         return 0
     pid = a.pid.upper()
     tier = a.tier if a.tier in ("quick", "thorough") else "quick"
+    os.environ["VERIF_TIER_EFFECTIVE"] = tier
+    os.environ["VERIF_TIER"] = tier
     mod = importlib.import_module("vlib.props." + pid.lower())
     plan = mod.plan(tier)
     run = core.Run(pid, tier)
